@@ -58,7 +58,8 @@ class AxolotlControlLayer(AxolotlBaseLayer):
     def on_connected(self, yowLayerEvent):
         super(AxolotlControlLayer, self).on_connected(yowLayerEvent)
         self.manager.level_prekeys()
-        self._unsent_prekeys.extend(self.manager.load_unsent_prekeys())
+        # what is pending is what the store says now: keys remembered from an earlier connect may have been consumed since
+        self._unsent_prekeys = self.manager.load_unsent_prekeys()
         if len(self._unsent_prekeys):
             self.setProp(YowAuthenticationProtocolLayer.PROP_PASSIVE, True)
 
